@@ -56,6 +56,7 @@ FBatch == {"direct", "batch"}
 FBatchNoop == {"direct", "batch", "noop"}
 FHist == {"direct", "batch", "second", "failwrite"}
 FBatchFail == {"direct", "batch", "failwrite"}
+FFailPrune == {"direct", "failwrite", "failwritep", "noop"}
 FFaults == {"direct", "batch", "lose", "get"}
 FDirectNoop == {"direct", "noop"}
 FReject == {"direct", "batch", "reject"}
